@@ -13,7 +13,7 @@ use std::hash::{Hash, Hasher};
 
 // ------------------------------------------------------------------------------------- C07
 
-//@ unit c07_split prop=C07 chunks=days:1024/days:4096 quickn=3 mem=3 timeout=900/1800 bound="every day number of the chunk x every microsecond of the day: new/extract/date/time/usecs"
+//@ unit c07_split prop=C07 chunks=days:1024/ts16k quickn=3 mem=3 timeout=900/1800 bound="every day number of the chunk x every microsecond of the day: new/extract/date/time/usecs"
 fn c07_split(lo: i32, hi: i32) {
     let n = any_i32_in(lo, hi);
     let t = any_tod();
